@@ -294,7 +294,30 @@ func decodeFull(tree *s.V) (res string) {
 		}
 		return "err"
 	}
-	return "ok " + s.DumpValue(root, reflect.ValueOf(conf).Elem())
+	// the factories of every pool are called twice: a configuration accepted by the decoder must also
+	// yield its products (gun and rps schedule are created per instance by the engine)
+	var fb strings.Builder
+	for _, p := range conf.Engine.Pools {
+		for i := 0; i < 2; i++ {
+			fb.WriteString(factoryBit(func() error { _, err := p.NewRPSSchedule(); return err }))
+		}
+		for i := 0; i < 2; i++ {
+			fb.WriteString(factoryBit(func() error { _, err := p.NewGun(); return err }))
+		}
+	}
+	return "ok " + s.DumpValue(root, reflect.ValueOf(conf).Elem()) + " f=" + fb.String()
+}
+
+func factoryBit(f func() error) (res string) {
+	defer func() {
+		if r := recover(); r != nil {
+			res = "p"
+		}
+	}()
+	if err := f(); err != nil {
+		return "0"
+	}
+	return "1"
 }
 
 func decodeComp(reg *s.Reg, iface, name string, tree *s.V) (res string) {
